@@ -492,7 +492,7 @@ func (e *Exec) ctxCancel(c *ctxObj, err Value) {
 	c.cancelled = true
 	c.err = err
 	if c.done != nil && !c.done.closed {
-		c.done.closed = true
+		e.closeCommit(c.done)
 	}
 	for _, ch := range c.children {
 		e.ctxCancel(ch, err)
